@@ -3,6 +3,7 @@ package ksim
 import (
 	"context"
 	"fmt"
+	"strings"
 	"time"
 
 	"k8s.io/apimachinery/pkg/util/intstr"
@@ -14,6 +15,7 @@ import (
 	"k8s.io/apimachinery/pkg/types"
 	"sigs.k8s.io/controller-runtime/pkg/client"
 
+	"github.com/openkruise/rollouts/api/v1alpha1"
 	"github.com/openkruise/rollouts/api/v1beta1"
 	rutil "github.com/openkruise/rollouts/pkg/util"
 )
@@ -31,6 +33,9 @@ type User struct {
 	Released bool
 	Approvals int
 	PausedByUser bool
+	ExitUnclaimed bool // an exit was requested while no BatchRelease held the workload
+	ReissuedID bool // rollout-id changed without a template change during the release
+	Early bool // a revision change was issued while the rollout was still initialising
 	doneKinds map[string]bool
 	doneAt    map[string]time.Time
 	Disturbed bool // the user did something after the release that changes what "finished" means
@@ -104,8 +109,9 @@ func (u *User) setVersion(v int) error {
 		return fmt.Errorf("workload gone")
 	}
 	t := workloadTemplate(o)
+	same := t.Spec.Containers[0].Image == fmt.Sprintf("app:v%d", v)
 	t.Spec.Containers[0].Image = fmt.Sprintf("app:v%d", v)
-	if u.sc.RolloutID {
+	if u.sc.RolloutID && !same {
 		a := o.GetAnnotations()
 		if a == nil {
 			a = map[string]string{}
@@ -179,7 +185,14 @@ func (u *User) Options(s *Sim) []option {
 
 func reached(ro *v1beta1.Rollout, ev *UserEvent) bool {
 	sub := ro.Status.GetSubStatus()
-	if sub == nil || ro.Status.Phase != v1beta1.RolloutPhaseProgressing {
+	if ro.Status.Phase != v1beta1.RolloutPhaseProgressing {
+		return false
+	}
+	if strings.HasSuffix(ev.Kind, "-early") {
+		// fires while the rollout is still initialising (the user changes his mind within seconds)
+		return progressingReason(ro) == v1alpha1.ProgressingReasonInitializing
+	}
+	if sub == nil || progressingReason(ro) != v1alpha1.ProgressingReasonInRolling {
 		return false
 	}
 	if int(sub.CurrentStepIndex) != ev.AtStep {
@@ -246,16 +259,41 @@ func (u *User) fire(ev *UserEvent) {
 		return false
 	}
 	switch ev.Kind {
-	case "rollback":
+	case "rollback", "rollback-early", "disable", "delete-rollout":
+		// fact for the exit oracles: was the workload under BatchRelease control when the exit was requested?
+		if wl := u.getWorkload(); wl != nil && controlledByUID(wl) == "" {
+			u.ExitUnclaimed = true
+		}
+	}
+	switch ev.Kind {
+	case "rollback", "rollback-early":
 		u.Disturbed = true
+		u.Early = u.Early || ev.Kind == "rollback-early"
 		if webhookDown(u.setVersion(1)) {
 			return
 		}
-	case "release-v3":
+	case "release-v3", "release-v3-early":
 		u.Disturbed = true
+		u.Early = u.Early || ev.Kind == "release-v3-early"
 		if webhookDown(u.setVersion(3)) {
 			return
 		}
+	case "reissue-rollout-id":
+		// same template, new rollout-id: documented as a new release of the same revision
+		o := u.getWorkload()
+		if o == nil || !u.sc.RolloutID {
+			return
+		}
+		a := o.GetAnnotations()
+		if a == nil {
+			a = map[string]string{}
+		}
+		a[v1beta1.RolloutIDLabel] = fmt.Sprintf("rid-re-%d", u.Actions)
+		o.SetAnnotations(a)
+		if webhookDown(u.h.Update(u.ctx, o)) {
+			return
+		}
+		u.ReissuedID = true
 	case "scale":
 		o := u.getWorkload()
 		if o == nil {
